@@ -3,7 +3,13 @@
 Contract, float64 only, for every grammar of the scope below (finite sum-product Z, weights in
 [0.05, 0.6] plus exact zeros), semiring in {Real, Log}, method in {fixed-point, newton, linear where
 the grammar is linearly recursive}, j_precompute in {False, True} (Real only: the Log backward pass
-never reads it) and three output cotangents c (seeded in [-1, 1], all ones, one-hot):
+never reads it) and output cotangents c: three per configuration (seeded in [-1, 1], all ones, one-hot) plus, per
+(semiring, j_precompute) with one method per grammar (thorough tier: the first three with every method), the STRUCTURED ones of
+structured_cotangents(): contrast e_a - e_b, dense with entries summing to exactly 0, all -1, exact zeros at every
+other entry, all 2^-30 (allowance scaled by 2^-30), the zero functional, and all ones back-propagated twice with
+retain_graph (.grad == 2 x derivative); thorough adds a single -1, zeros at the other parity, a seeded tiny one and
+the zero-sum one twice.  The statement says "any linear functional of the start tensor" and backward() is linear in
+c, so no aggregate of c (sum, maximum, sign pattern, norm below some threshold, first entry) may decide anything:
 
     for w in factor weights: w.requires_grad_()
     z = fggs.sum_product(fgg, method=, semiring=, j_precompute=, tol=1e-12, kmax=20000)
@@ -54,11 +60,12 @@ INF = math.inf
 RTOL, ATOL = 1e-5, 1e-8
 SOLVER_TOL, SOLVER_KMAX = 1e-12, 20000
 W_LO, W_HI, P_ZERO = 0.05, 0.6, 0.12
-BOUND = ("[+ hand-written: valueless rules in every rule order, recursion through duplicated externals / patterned diagonal factors] FGGs within the bound of G (<= 3 nonterminals, <= 2 rules each, <= 3 nodes / 3 edges per rhs, arity <= 2, "
+BOUND = ("[+ structured cotangents: contrast / exactly-zero-sum / all-negative / zeros at alternate entries / 2^-30 / zero / back-propagated twice; + a second enumeration pass restricted to start symbols with >= 2 entries] [+ hand-written: valueless rules in every rule order, recursion through duplicated externals / patterned diagonal factors] FGGs within the bound of G (<= 3 nonterminals, <= 2 rules each, <= 3 nodes / 3 edges per rhs, arity <= 2, "
          "domain sizes 1..3; non-recursive skeletons and recursive families) plus hand-written grammars with up to 4 "
          "nodes / 4 edges per rhs (shared factors, unreachable factors, edgeless nodes, duplicated externals, start arity "
          "1-2, node private to the first edges), weights re-drawn in [0.05, 0.6] with exact zeros, finite well-conditioned "
-         "Z; float64 x {Real, Log} x {fixed-point, newton, linear} x j_precompute {off, on} (Real) x 3 cotangents")
+         "Z; float64 x {Real, Log} x {fixed-point, newton, linear} x j_precompute {off, on} (Real) x 3 cotangents, and "
+         "{Real, Log} x j_precompute x one method per grammar x 7 (thorough 11, three of them with every method) structured cotangents")
 
 
 # ------------------------------------------------------------------------------------------
@@ -219,7 +226,8 @@ def handwritten_extra() -> List[dict]:
         sum-product is a diagonal (non-dense) PatternedTensor, so the cotangent handed to multi_solve in backward()
         has NaN as its default;
     (2b) the same through an equality factor given as a PATTERNED weight (recipe key "patterned": {terminal: "diag"
-        | "eye"}: the FiniteFactor's weights are PatternedTensor(vector, [k], [k, k]) resp. PatternedTensor.eye)."""
+        | "eye"}: the FiniteFactor's weights are PatternedTensor(vector, [k], [k, k]) resp. PatternedTensor.eye);
+    (3) a recursive START symbol with one / two attachment nodes."""
     T, N = True, False
     mk = G._mk
     out: List[dict] = []
@@ -255,7 +263,16 @@ def handwritten_extra() -> List[dict]:
         m1 = [row[:d] for row in [[0.5, 0.1, 0.3], [0.2, 0.6, 0.15], [0.25, 0.05, 0.4]][:d]]
         eye = [[1.0 if i == j else 0.0 for j in range(d)] for i in range(d)]
         dg = [[[0.45, 0.3, 0.55][i] if i == j else 0.0 for j in range(d)] for i in range(d)]
-        # (2a) X(v,v) -> b(v) | X(v,v) c(v)   with ext = [v, v];   S -> X(u,w) t(u,w)
+        # the START symbol itself is recursive and has attachment nodes (Z is a vector / a matrix, every output
+        # cotangent reaches the cyclic component unchanged):  S(n) -> t(n,m) S(m) | b(n)   and
+        # S(n,k) -> t(n,m) S(m,k) c(k) | t(n,k)
+        out.append(mk({"N0": d}, {"S": (["N0"], N), "t": (["N0", "N0"], T), "b": (["N0"], T)}, "S",
+                      [("S", ["N0", "N0"], [("t", [0, 1]), ("S", [1])], [0]), ("S", ["N0"], [("b", [0])], [0])],
+                      {"t": m1, "b": v1}, {"family": "recursive-start-arity1"}))
+        out.append(mk({"N0": d}, {"S": (["N0", "N0"], N), "t": (["N0", "N0"], T), "c": (["N0"], T)}, "S",
+                      [("S", ["N0", "N0", "N0"], [("t", [0, 1]), ("S", [1, 2]), ("c", [2])], [0, 2]),
+                       ("S", ["N0", "N0"], [("t", [0, 1])], [0, 1])],
+                      {"t": m1, "c": v2}, {"family": "recursive-start-arity2"}))
         out.append(mk({"N0": d}, {"S": ([], N), "X": (["N0", "N0"], N), "b": (["N0"], T), "c": (["N0"], T), "t": (["N0", "N0"], T)}, "S",
                       [("S", ["N0", "N0"], [("X", [0, 1]), ("t", [0, 1])], []),
                        ("X", ["N0"], [("b", [0])], [0, 0]), ("X", ["N0"], [("X", [0, 0]), ("c", [0])], [0, 0])],
@@ -360,6 +377,24 @@ def grammars(tier: str, rng) -> List[dict]:
             k += 1
         if k >= n_rec:
             break
+    # a second, independent pass over the same enumerations that keeps only grammars whose START symbol has at least
+    # two entries (attachment nodes): only there is "which linear functional" more than a scale factor, so only there
+    # do the structured cotangents (contrasts, zero-sum, exact zeros in some places) exist at all.  Own random stream:
+    # the grammars above are exactly what they were before this pass was added.
+    import random
+    rng_v = random.Random(f"c03-vector-start:{tier}")
+    n_vnon, n_vrec = (30, 20) if tier == "quick" else (500, 250)
+    for enum, quota, pz in ((G.enum_nonrecursive, n_vnon, P_ZERO), (G.enum_recursive, n_vrec, 0.08)):
+        k = 0
+        for g in enum(tier, rng_v):
+            if not g["weights"] or g.get("weights_log") or len(G.start_assignments(g)) < 2:
+                continue
+            h = reweight(g, rng_v, p_zero=pz)
+            h["meta"]["family"] += ":vector-start"
+            if add(h):
+                k += 1
+            if k >= quota:
+                break
     return out
 
 
@@ -558,7 +593,63 @@ def cotangents(recipe, o: Oracle, sname: str, rng) -> List[Tuple[str, Dict[Tuple
     return out
 
 
-def library_grad(recipe, sname: str, method: str, jp: bool, cot: Dict[Tuple[int, ...], float]):
+TINY = 2.0 ** -30          # below the default atol (1e-8) of torch.allclose / isclose
+STRUCTURED_QUICK = ("contrast", "zero-sum-dense", "neg-ones", "even-zero", "tiny-ones", "all-zero", "ones-twice")
+STRUCTURED_THOROUGH = STRUCTURED_QUICK + ("neg-one-hot", "odd-zero", "tiny-seeded", "zero-sum-twice")
+STRUCTURED_EVERY_METHOD = ("contrast", "zero-sum-dense", "neg-ones")     # thorough tier; the others: one method per grammar
+
+
+def structured_cotangents(o: Oracle, sname: str, rng, names) -> List[Tuple[str, Dict[Tuple[int, ...], float], float, int]]:
+    """Linear functionals of the start tensor with a SHAPE that the seeded / ones / one-hot cotangents never have.
+    The statement quantifies over every linear functional, and backward() is linear in the cotangent, so nothing about
+    the cotangent other than its values may matter: not its sum, its sign pattern, its magnitude, where its exact zeros
+    sit, nor how often it is propagated.  -> [(name, cotangent, scale, backward calls)]; all entries are dyadic rationals,
+    so "sums to zero" is exact in float64 in any summation order.
+
+      contrast        +1 at one entry, -1 at another, exactly 0 elsewhere (Real: Z[a]-Z[b]; Log: the log-odds)
+      zero-sum-dense  every entry non-zero (multiples of 1/8 in [-1, 1]), the entries sum to exactly 0
+      neg-ones        all entries -1 (no positive entry, negative sum)
+      neg-one-hot     a single -1 (maximum 0, negative sum)
+      even-zero       seeded non-zero dyadic values, the 1st, 3rd, ... entry exactly 0 (odd-zero: the 2nd, 4th, ...)
+      tiny-ones       all entries 2^-30 < 1e-8: the allowance is scaled with the cotangent (ATOL * 2^-30), i.e. the
+      tiny-seeded     comparison is as strict, relative to the size of the functional, as for the unit cotangents
+      all-zero        the zero functional: every gradient is 0 (or absent), never NaN
+      ones-twice      the all-ones functional back-propagated twice through the same graph (retain_graph): .grad holds
+      zero-sum-twice  the sum of the two passes (backward() must not consume or alter what forward() retained)"""
+    idxs = [a for a in sorted(o.Z) if sname == "Real" or o.Z[a] > 0]
+    n = len(idxs)
+    if not n:
+        return []
+    dy = lambda: rng.choice([-1, 1]) * rng.randrange(1, 9) / 8.0
+    fam: Dict[str, Tuple[Dict[Tuple[int, ...], float], float, int]] = {}
+    fam["neg-ones"] = ({a: -1.0 for a in idxs}, 1.0, 1)
+    fam["tiny-ones"] = ({a: TINY for a in idxs}, TINY, 1)
+    fam["tiny-seeded"] = ({a: dy() * TINY for a in idxs}, TINY, 1)
+    fam["all-zero"] = ({a: 0.0 for a in idxs}, 1.0, 1)
+    fam["ones-twice"] = ({a: 1.0 for a in idxs}, 1.0, 2)
+    fam["neg-one-hot"] = ({a: (-1.0 if a == idxs[rng.randrange(n)] else 0.0) for a in idxs}, 1.0, 1) if n > 1 else None
+    if n > 1:
+        i, j = rng.sample(range(n), 2)
+        fam["contrast"] = ({a: (1.0 if k == i else -1.0 if k == j else 0.0) for k, a in enumerate(idxs)}, 1.0, 1)
+        for _ in range(50):
+            vals = [dy() for _ in range(n - 1)]
+            vals.append(-sum(vals))
+            if vals[-1] != 0.0 and abs(vals[-1]) <= 1.0:
+                break
+        else:                   # +1 -1 +1 -1 ... ; an odd count starts with 1/2 1/2 -1
+            vals = [0.5, 0.5, -1.0][:3 * (n % 2)] + [(1.0 if k % 2 == 0 else -1.0) for k in range(n - 3 * (n % 2))]
+        zs = dict(zip(idxs, vals))
+        assert len(vals) == n
+        assert sum(zs.values()) == 0.0 and all(v != 0.0 for v in zs.values())
+        fam["zero-sum-dense"] = (zs, 1.0, 1)
+        fam["zero-sum-twice"] = (dict(zs), 1.0, 2)
+        fam["even-zero"] = ({a: (0.0 if k % 2 == 0 else dy()) for k, a in enumerate(idxs)}, 1.0, 1)
+        fam["odd-zero"] = ({a: (0.0 if k % 2 == 1 else dy()) for k, a in enumerate(idxs)}, 1.0, 1)
+    return [(nm,) + fam[nm] for nm in names if fam.get(nm) is not None]
+
+
+def library_grad(recipe, sname: str, method: str, jp: bool, cot: Dict[Tuple[int, ...], float],
+                 calls: int = 1):
     """-> (status, grads | exception, warnings).  status in ok / exception-forward / exception-backward.
     grads: terminal -> nested list or None (no gradient recorded)."""
     import torch
@@ -585,6 +676,8 @@ def library_grad(recipe, sname: str, method: str, jp: bool, cot: Dict[Tuple[int,
             # only the entries the cotangent mentions enter the loss (Log: -inf entries stay out of it)
             loss = (c[mask] * dense[mask]).sum()
             if loss.requires_grad:
+                for _ in range(calls - 1):
+                    loss.backward(retain_graph=True)
                 loss.backward()
         except Exception as e:  # noqa
             return "exception-backward", e, [str(w.message) for w in wl]
@@ -727,10 +820,15 @@ def make_key(recipe, sname: str, method: str, jp: bool, phase: str, kind: str) -
 
 
 def check_config(recipe, o: Oracle, sname: str, method: str, jp: bool, cname: str,
-                 cot: Dict[Tuple[int, ...], float]) -> Tuple[List[dict], str]:
+                 cot: Dict[Tuple[int, ...], float], scale: float = 1.0, calls: int = 1) -> Tuple[List[dict], str]:
+    """scale: size of the cotangent (<= 1): the absolute allowance is ATOL * scale, so a cotangent of size 2^-30 is held
+    to the same relative standard as a unit one; calls: how often the loss is back-propagated (.grad accumulates)."""
+    assert 0.0 < scale <= 1.0 and calls >= 1
     case = {"recipe": recipe, "semiring": sname, "method": method, "j_precompute": jp, "cotangent_name": cname,
             "cotangent": [[list(a), c] for a, c in sorted(cot.items())]}
-    status, payload, wl = library_grad(recipe, sname, method, jp, cot)
+    if scale != 1.0 or calls != 1:
+        case.update({"cotangent_scale": scale, "backward_calls": calls})
+    status, payload, wl = library_grad(recipe, sname, method, jp, cot, calls)
     if status != "ok":
         e = payload
         if status == "exception-forward" and method == "linear" and isinstance(e, ValueError) and not G.is_linearly_recursive(recipe):
@@ -751,6 +849,8 @@ def check_config(recipe, o: Oracle, sname: str, method: str, jp: bool, cname: st
         if not (ob == ex or abs(ob - ex) <= 1e-9 + 1e-7 * abs(ex)):
             return [], "forward-differs"
     exp = expected_grad(recipe, o, sname, cot)
+    if calls != 1:
+        exp = {t: G.map_nested(lambda x: None if x is None else calls * x, e) for t, e in exp.items()}
     out = []
     for t in G.terminals(recipe):
         shp = G.shape_of(recipe, t)
@@ -767,7 +867,7 @@ def check_config(recipe, o: Oracle, sname: str, method: str, jp: bool, cname: st
                 kind = "nan"
             elif ob in (INF, -INF):
                 kind = "inf"
-            elif abs(ob - ex) <= ATOL + RTOL * abs(ex):
+            elif abs(ob - ex) <= ATOL * scale + RTOL * abs(ex):
                 continue
             else:
                 kind = "wrong-derivative" if grads[t] is not None else "missing-gradient"
@@ -795,7 +895,7 @@ def configs(recipe):
                 yield sname, method, jp
 
 
-def check_grammar(recipe, seed_key: str, crosscheck: bool = True):
+def check_grammar(recipe, seed_key: str, crosscheck: bool = True, thorough: bool = False):
     """-> (fails, n_cases, stats, in_scope, nontrivial, harness_errors)"""
     import random
     stats: Dict[str, int] = {}
@@ -834,15 +934,41 @@ def check_grammar(recipe, seed_key: str, crosscheck: bool = True):
                 fl, st = check_config(recipe, o, sname, method, jp, cname, cot)
                 bump(st)
                 fails.extend(fl)
+    # structured cotangents (own random stream: the cases above are what they were before these existed).  backward()
+    # is the same code for every method, so each (semiring, j_precompute) gets them with ONE method, picked per grammar;
+    # the thorough tier runs the families of STRUCTURED_EVERY_METHOD with every method.
+    rng2 = random.Random(seed_key + ":structured-cotangents")
+    for sname in ("Real", "Log"):
+        scots = structured_cotangents(o, sname, rng2, STRUCTURED_THOROUGH if thorough else STRUCTURED_QUICK)
+        if not scots:
+            continue
+        by_jp: Dict[Any, List[str]] = {}
+        for s2, method, jp in configs(recipe):
+            if s2 == sname:
+                by_jp.setdefault(jp, []).append(method)
+        for jp, methods in by_jp.items():
+            pick = methods[rng2.randrange(len(methods))]
+            for method in methods:
+                for cname, cot, scale, calls in scots:
+                    if method != pick and not (thorough and cname in STRUCTURED_EVERY_METHOD):
+                        continue
+                    n += 1
+                    fl, st = check_config(recipe, o, sname, method, jp, cname, cot, scale, calls)
+                    bump(st)
+                    bump("cotangent-family:" + cname)
+                    fails.extend(fl)
     return fails, n, stats, True, nontrivial, herr
 
 
-def _worker(chunk: List[dict]):
+def _worker(chunk):
     import torch
     torch.set_num_threads(1)
+    thorough = False
+    if isinstance(chunk, tuple):
+        chunk, thorough = chunk
     res = []
     for recipe in chunk:
-        res.append(check_grammar(recipe, "c03:" + G.canonical(recipe)))
+        res.append(check_grammar(recipe, "c03:" + G.canonical(recipe), thorough=thorough))
     return res
 
 
@@ -867,7 +993,7 @@ def run_bounded(ctx: Ctx) -> Report:
     recipes = grammars(ctx.tier, ctx.rng("c03-grammars"))
     jobs = max(1, min(ctx.jobs, len(recipes)))
     size = max(1, min(12, len(recipes) // (jobs * 6) or 1))
-    chunks = [recipes[i:i + size] for i in range(0, len(recipes), size)]
+    chunks = [(recipes[i:i + size], ctx.thorough) for i in range(0, len(recipes), size)]
     results = []
     if jobs > 1:
         _preimport()
@@ -908,7 +1034,9 @@ def run_bounded(ctx: Ctx) -> Report:
               "with weights re-drawn in [0.05,0.6] and exact zeros, restricted to those whose dual-number reference "
               "converges (finite, well-conditioned); a case is one (grammar, semiring, method, j_precompute, cotangent) "
               "forward+backward compared entry-wise with the dual-number derivative; distinct = distinct canonical recipe in "
-              "scope; non-trivial = some dZ/dw is non-zero"),
+              "scope; non-trivial = some dZ/dw is non-zero; the structured cotangents (extra.outcomes cotangent-family:*) "
+              "are drawn from their own random stream and run with one method per (grammar, semiring, j_precompute) in the "
+              "quick tier"),
         samples=recipes[:3], exhaustive=False,
         extra={"grammars": len(recipes), "grammars_in_scope": in_scope, "families": fams,
                "outcomes": dict(sorted(stats.items())),
@@ -927,8 +1055,9 @@ def replay_case(case: dict) -> bool:
         print("C03 replay: grammar outside the scope (oracle", o.status, ")")
         return False
     cot = {tuple(a): c for a, c in case["cotangent"]}
-    fl, st = check_config(recipe, o, case["semiring"], case["method"], case["j_precompute"], case.get("cotangent_name", "?"), cot)
-    print(f"C03 replay {case['semiring']}/{case['method']}/j_precompute={case['j_precompute']}: "
+    fl, st = check_config(recipe, o, case["semiring"], case["method"], case["j_precompute"], case.get("cotangent_name", "?"), cot,
+                          case.get("cotangent_scale", 1.0), case.get("backward_calls", 1))
+    print(f"C03 replay {case['semiring']}/{case['method']}/j_precompute={case['j_precompute']}/cotangent {case.get('cotangent_name', '?')}: "
           f"{'VIOLATION reproduces' if fl else 'no violation'} ({st})")
     for f in fl[:3]:
         print("  ", f["clause"], f["key"])
